@@ -15,6 +15,7 @@ silent about such shells).  Helper lemmas: `CruxVerif/Lemmas/Timer/*.lean`.
 -/
 import CruxVerif.Lemmas.Timer.Direct
 import CruxVerif.Lemmas.Timer.LegacyWorld
+import CruxVerif.Lemmas.Timer.MixedSound
 namespace Props.C18
 open M.Timer S.Timer Lemmas.Timer
 
@@ -40,6 +41,25 @@ theorem ids_unique (counter n : Nat) (h : n ≤ 18446744073709551616) : (allocId
 theorem ids_increasing (counter n : Nat) (h : counter % 18446744073709551616 + n ≤ 18446744073709551616) :
     increasing (allocIds counter n) = true :=
   allocIds_increasing n counter h
+
+/-- **Both APIs, one counter.** Whatever the interleaving of legacy-capability and command-API timer creations in a
+    process (`apis`: `true` = legacy, `false` = command API), the ids handed out are pairwise distinct. -/
+theorem ids_unique_joint (counter : Nat) (apis : List Bool) (h : apis.length ≤ 18446744073709551616) :
+    ((allocSeq counter apis).map (·.2)).Nodup := by
+  rw [allocSeq_ids]; exact allocIds_nodup counter _ h
+
+/-- … and on the model of ONE app that starts timers through both APIs (host `mixed`): after every history — starts
+    of legacy and command-API timers in any order, with polls, fires, clears, drops and (late / duplicate / wrong)
+    responses in between — no two timers, of whichever APIs, have the same id, and every id is below the shared counter.
+    (`kinds[j]` = (is timer `j` a legacy timer?, its constructor); `idAt j` = the id of timer `j` once it has one.) -/
+theorem ids_unique_mixed (counter : Nat) (kinds : List (Bool × Kind)) (steps : List (MAct × Nat))
+    (hb : counter + steps.length < 18446744073709551616) :
+    (∀ i j x, (mfinal (mkMWorld counter kinds) steps).idAt i = some x →
+              (mfinal (mkMWorld counter kinds) steps).idAt j = some x → i = j) ∧
+    (∀ j x, (mfinal (mkMWorld counter kinds) steps).idAt j = some x →
+            x < (mfinal (mkMWorld counter kinds) steps).lw.counter) := by
+  have h := minv_ids _ (minv_mfinal steps _ (minv_init counter kinds) hb)
+  exact ⟨h.2, h.1⟩
 
 /-! ### one timer, every interleaving -/
 
@@ -238,6 +258,33 @@ theorem legacy_cleared_reports (k : Kind) (id newId : Nat) (rq : Req) (n : Nat) 
   subst hheld hans
   simp [lstep1, Req.resolve]
 
+/-! ### both APIs in one app (host `mixed`) -/
+
+/-- **Full statement for one app using both APIs**: the oracle (ids unique across the APIs is checked on the
+    observation; per timer the command-API monitor or the legacy monitor) accepts every mixed history. -/
+def C18_mixed_full : Prop :=
+  ∀ (counter : Nat) (kinds : List (Bool × Kind)) (steps : List (MAct × Nat)),
+    counter + steps.length < 18446744073709551616 →
+    mverdict true kinds ((List.range kinds.length).map (mfinal (mkMWorld counter kinds) steps).idAt) steps true
+      (mrun (mkMWorld counter kinds) steps) = none
+
+/-- False for the same reason as `C18_legacy_full` (the legacy `clear` notifies unconditionally). -/
+theorem C18_mixed_full_false : ¬ C18_mixed_full := by
+  intro h
+  have := h 1 [(true, .after)] [(.startClear, 0)] (by decide)
+  revert this
+  decide
+
+/-- **Partial statement**: without exactly that legacy clause the oracle accepts every history of one app that starts
+    timers through both APIs in any order — every command-API timer satisfies every clause of the command monitor (its
+    entries are a run of the fresh timer with the id the shared counter gives it), every legacy timer every other
+    clause of the legacy monitor, and no timer shows anything in a step that does not concern it. -/
+theorem C18_mixed_partial (counter : Nat) (kinds : List (Bool × Kind)) (steps : List (MAct × Nat))
+    (hb : counter + steps.length < 18446744073709551616) :
+    mverdict false kinds ((List.range kinds.length).map (mfinal (mkMWorld counter kinds) steps).idAt) steps true
+      (mrun (mkMWorld counter kinds) steps) = none :=
+  mverdict_mrun counter kinds steps hb
+
 /-! ### non-vacuity (tests by evaluation) -/
 
 /-- the canonical clear: request, clear, Clear request, its answer, cleared -/
@@ -267,5 +314,11 @@ example : lverdict1 true .at (some 5) {} (ltrace1 5 (lfresh .at) false [.start, 
   decide
 example : lverdict1 true .at (some 5) {} (ltrace1 5 (lfresh .at) false [.start, .resolveReq .good, .clear])
     = some "legacy-clear-always-notifies" := by decide
+
+/-- mixed: a legacy and a command-API timer started one after the other get consecutive ids from the one counter -/
+example : (List.range 2).map (mfinal (mkMWorld 7 [(true, .after), (false, .at)]) [(.start, 0), (.start, 1)]).idAt
+    = [some 7, some 8] := by decide
+/-- the oracle rejects an observation whose ids were not unique, whatever else it shows -/
+example : mverdict true [(true, .after), (false, .at)] [some 1, some 1] [] false [] = some "id-not-unique" := by decide
 
 end Props.C18
